@@ -56,8 +56,10 @@ class SenderTap:
 def make_sender(w, case, out):
     env = w.env
     size = case.get('segments', 4) * MSS
+    pace = case.get('pace')
     flow = Flow(flow_id=case.get('fid', 1), src='h0', dst='h1', start_time=case.get('start', 0) or None,
-                finish_time=1e12, size=size)
+                finish_time=1e12, size=size,
+                arrival_dist=(lambda: pace) if pace else None, size_dist=(lambda: MSS) if pace else None)
     if case.get('cc', 'reno') == 'cubic':
         cc = TCPCubic()
     else:
